@@ -174,6 +174,40 @@ CHECKS = {
         note="Trusted: TLC, harness observation code. Bounded: length <= 3 (quick) / 4 (thorough) for exhaustive cases.",
         technique="TLA+ list model and iterator machines model-checked with TLC; accessor expectations replayed; iterator traces validated by TLC",
     ),
+    "C04": dict(
+        category="model_checking",
+        text="A family of 46 concrete Rust types covering every Serde data-model category and the shape-ambiguous nestings is generated "
+             "from one description into derive'd Rust types and TLA+ type descriptors. TLC enumerates small inhabitants of every type, "
+             "checks on the model that the documented reading of the documented shape is the identity and that serialization is "
+             "injective, and emits them; each inhabitant plus seeded random inhabitants go through to_value/from_value and the text "
+             "entry points of serde-lexpr and must come back equal; TLC validates the recorded (type, value, S-expression) triples "
+             "against the model.",
+        design_ref="DESIGN.md section 6 (C04), section 3.8, Appendix D",
+        note="Trusted: TLC, serde / serde_derive, the generated conversions between abstract JSON values and Rust values (harness/vh/src/"
+             "types_gen.rs, serde_abs.rs). Externally tagged default derive only.",
+        technique="TLA+ Serde shape model (RefSer/RefDe) model-checked with TLC over a generated type family; inhabitants replayed through serde-lexpr; triples validated by TLC",
+    ),
+    "C14": dict(
+        category="model_checking",
+        text="RefSer in spec/SerdeModel.tla is the transcription of the documented shape table; for every TLC-enumerated inhabitant of "
+             "every family type to_value must produce exactly that S-expression, and every alternative encoding derived from it (vector "
+             "for list, list for vector, improper tail, wrong kind) must be accepted as the documented value or rejected with a data "
+             "error as RefDe says. Random inhabitants' shapes are validated by TLC.",
+        design_ref="DESIGN.md section 6 (C14), section 3.8",
+        note="Trusted: as C04. Entry order of sets/maps is the container's (BTree: ascending). Surplus elements and unknown struct fields "
+             "are left undetermined.",
+        technique="TLA+ shape table (RefSer) and acceptance rules (RefDe) checked with TLC; shapes and alternative encodings replayed into serde-lexpr; validated by TLC",
+    ),
+    "C18": dict(
+        category="model_checking",
+        text="TLC enumerates every S-expression value of bounded size over a 12-atom alphabet crossed with every family type, checks on the "
+             "model that whatever RefDe accepts is normalised (serialises and reads back as itself) and emits the verdicts; the "
+             "implementation deserializes each (value, type) pair under catch_unwind: no panic, errors are data errors, accepted values "
+             "survive their own round trip, accept/reject agrees with the documented verdict; TLC validates the recorded results.",
+        design_ref="DESIGN.md section 6 (C18)",
+        note="Trusted: as C04. Bounded: values of at most 1 (quick) / 2 (thorough) nesting steps over 12 atoms.",
+        technique="TLA+ type-directed deserialization model checked with TLC over all small values x types; replayed into from_value; validated by TLC",
+    ),
     "C07": dict(
         category="fault_enumeration",
         text="The sink machine of spec/Sink.tla (write_all discipline against a sink that may accept any prefix, return 0, fail or "
